@@ -929,7 +929,7 @@ impl Check for C03 {
             states_note: "states = distinct (full-state digest, protocol wait state, live snapshots) of the protocol search; transitions = protocol actions executed plus entered texts".into(),
             assumptions: vec![
                 "debug assertions and overflow checks are on: a violated debug_assert is reported as a panic".into(),
-                "a per-case watchdog of 20 s stands for 'never returns'; worker threads have the 8 MiB stack of a main thread".into(),
+                "a per-case watchdog of 60 s (VERIF_HANG_SECS) stands for 'never returns'; worker threads have the 8 MiB stack of a main thread".into(),
                 "the terminal front end (src/term) is not executed; its calls into the library are mirrored by the driver".into(),
             ],
         }
